@@ -10,7 +10,7 @@ rounds follow §4.1.2 / §6.2.2.  Here:
     (`r³ ≤ p·2^96 < (r+1)³`), so the statement does not rest on the root-finding code;
   * the mirror of the compression function (`shaCompress`: 16 big-endian loads, the two `while i < 64`
     loops, the eight `~mod+=`) equals §6.2.2 for every chaining value and every block;
-  * hence, with `sha256_any_split` (Props/C07Sha.lean): for every byte string and every non-empty sequence
+  * hence, with `sha256_any_split` (Props/C07Sha.lean): for every byte string and every sequence (the empty one included)
     of update calls the digest is FIPS 180-4 SHA-256 of the concatenation.
 
 The control-flow mirror itself (rotation amounts, order of the additions) is tied to the C generated from the
@@ -64,16 +64,23 @@ theorem sha256Spec_eq_fips (msg : List UInt8) : sha256Spec msg = sha256 msg := b
   rw [shaDigestBytes_eq_fips, shaPad_eq_fips, shaUpBlocks_eq_fips sha256_K_eq_fips _ _ _ (Nat.le_refl _),
     shaInit_eq_fips]
 
-/-- **sha256_digest_eq_fips**: a fresh hasher fed the whole message computes FIPS 180-4 SHA-256. -/
-theorem sha256_digest_eq_fips (x : List UInt8) : (ShaHasher.update {} x).checksum = sha256 x := by
-  rw [sha256_checksum_eq_spec, sha256Spec_eq_fips]
+/-- **sha256_digest_eq_fips**: a fresh hasher fed the whole message computes FIPS 180-4 SHA-256
+    (`x.length < 2^64`: slice lengths are u64, and FIPS 180-4 defines SHA-256 for messages below 2^64 bits). -/
+theorem sha256_digest_eq_fips (x : List UInt8) (hx64 : x.length < 18446744073709551616) :
+    (ShaHasher.update {} x).checksum = sha256 x := by
+  rw [sha256_checksum_eq_spec x hx64, sha256Spec_eq_fips]
 
-/-- **However the bytes are split** (at least one update call): the digest is FIPS 180-4 SHA-256 of the
-    concatenation. -/
-theorem sha256_any_split_eq_fips (p0 : List UInt8) (parts : List (List UInt8))
-    (hlen : (p0 :: parts).flatten.length < 18446744073709551616) :
-    ((p0 :: parts).foldl ShaHasher.update {}).checksum = sha256 (p0 :: parts).flatten := by
-  rw [sha256_any_split_eq_spec p0 parts hlen, sha256Spec_eq_fips]
+/-- **However the bytes are split** (EVERY sequence of update calls, the empty one included): the digest is
+    FIPS 180-4 SHA-256 of the concatenation. -/
+theorem sha256_any_split_eq_fips (parts : List (List UInt8))
+    (hlen : parts.flatten.length < 18446744073709551616) :
+    (parts.foldl ShaHasher.update {}).checksum = sha256 parts.flatten := by
+  rw [sha256_any_split_eq_spec parts hlen, sha256Spec_eq_fips]
+
+/-- ZERO update calls: a hasher that was only initialised reports FIPS 180-4 SHA-256 of the empty string
+    (e3b0c442…b855). -/
+theorem sha256_zero_updates_eq_fips : ({} : ShaHasher).checksum = sha256 [] :=
+  sha256_any_split_eq_fips [] (by decide)
 
 /-- FIPS 180-4 Appendix B.1 / the usual test vector: SHA-256("abc") -/
 example : sha256 [0x61, 0x62, 0x63] =
@@ -82,6 +89,6 @@ example : sha256 [0x61, 0x62, 0x63] =
   decide +kernel
 
 example : ((ShaHasher.update {} [0x61]).update [0x62, 0x63]).checksum = sha256 [0x61, 0x62, 0x63] :=
-  sha256_any_split_eq_fips [0x61] [[0x62, 0x63]] (by decide)
+  sha256_any_split_eq_fips [[0x61], [0x62, 0x63]] (by decide)
 
 end WuffsVerif.Props.C07
